@@ -44,7 +44,15 @@ def main():
         ck = core.Check(pid, a.tier, a.seed, (i, n))
         # watchdog: a wedged shard dumps its stack and is killed by the parent (=> inconclusive)
         faulthandler.dump_traceback_later(getattr(mod, 'TIMEOUT', {}).get(a.tier, 900), exit=True)
-        mod.run(ck)
+        # a workload that is stopped by an exception (on a changed tree, set-up code of a LATER case may fail because of what an earlier case left behind) still
+        # hands in what its monitors saw until then: violations found count, the rest of the shard is reported as not run (inconclusive)
+        try:
+            mod.run(ck)
+        except Exception as ex:
+            import traceback
+            traceback.print_exc()
+            tb = traceback.extract_tb(ex.__traceback__)
+            ck.inconclusive.append(f'shard{i} stopped by {type(ex).__name__} at {tb[-1].name}:{tb[-1].lineno} after {ck.evaluations} evaluations')
         with open(a.out, 'wb') as f:
             pickle.dump(ck, f)
         return
